@@ -1,5 +1,6 @@
 import WhVerif.Model.C11
 import WhVerif.Spec.C11
+import WhVerif.Lemmas.C11Perms
 /-!
 Polyploid switch/flip calculator: the un-pruned dynamic program (`polyCompareFull`, the recurrences of
 `switchflipcalculator.cpp` with nothing erased) returns the minimum of the brute-force objective over ALL
@@ -267,21 +268,5 @@ theorem polyCompareFull_cost (p sc fc : Nat) (hne : perms p ≠ []) (cols : List
         rw [seq_cost_eq sc fc q s c0 c1 rest hlen]
         exact runW_le (perms p) sc fc _ rest q (hall q List.mem_cons_self) s
           (fun r hr => hall r (List.mem_cons_of_mem _ hr)) hlen
-
-theorem perms_eq_bijections (p : Nat) (hp : p ≤ 4) : perms p = Spec.bijections p := by
-  match p, hp with
-  | 0, _ => decide
-  | 1, _ => decide
-  | 2, _ => decide
-  | 3, _ => decide
-  | 4, _ => decide
-
-theorem perms_ne_nil (p : Nat) (hp : p ≤ 4) : perms p ≠ [] := by
-  match p, hp with
-  | 0, _ => decide
-  | 1, _ => decide
-  | 2, _ => decide
-  | 3, _ => decide
-  | 4, _ => decide
 
 end WhVerif.C11
